@@ -16,11 +16,14 @@ import (
 // API calls the daemon's real JSON-RPC handlers in-process (no listener).
 type API struct {
 	m jrpc.MethodMap
+	r *sim.Replica
+	// LeakedCursors counts result sets handlers left open when they returned.
+	LeakedCursors int
 }
 
 func newAPI(r *sim.Replica) *API {
 	s := srv.NewAPIServer(r.Node.Config, r.Node)
-	return &API{m: s.VerifMethods()}
+	return &API{m: s.VerifMethods(), r: r}
 }
 
 // Call invokes a method and returns the JSON of its result, or the JSON-RPC
@@ -40,6 +43,7 @@ func (a *API) Call(method string, params interface{}) (res json.RawMessage, rpcE
 		}
 	}()
 	out := f(context.Background(), raw)
+	a.LeakedCursors += a.r.Cursors.HandlerReturned()
 	switch v := out.(type) {
 	case jrpc.Error:
 		return nil, &v, ""
